@@ -45,6 +45,11 @@ class IterationHistory(MutableMapping, dict):
         else:
             dict.__setitem__(self, key, copy.deepcopy(val))
 
+    def __ior__(self, other):
+        # dict.__ior__ would bypass __setitem__ (key check and deep copy)
+        self.update(other)
+        return self
+
     def __getitem__(self, key):
         return dict.__getitem__(self, key)
 
